@@ -40,8 +40,11 @@ func hashTree(dir string, suffix string) []string {
 
 // richGrammar: syntax part (possibly ambiguous / with error alternatives) plus a lexical part
 // with extra tokens the syntax part never uses (they are numbered after the used ones, sorted).
-func richGrammar(r *rand.Rand) *gram.Grammar {
-	o := gram.SynGenOpts{}
+func richGrammar(r *rand.Rand) *gram.Grammar { return richGrammarOf(r, "") }
+
+// richGrammarOf: as richGrammar, with a fixed template family for the syntax part.
+func richGrammarOf(r *rand.Rand, family string) *gram.Grammar {
+	o := gram.SynGenOpts{Family: family}
 	switch r.Intn(4) {
 	case 0:
 		o.Ambiguous = true
@@ -112,7 +115,16 @@ func runC11(c *Ctx) error {
 	c.Assumptions = []string{"gocc starts no goroutines, so the schedule dimension reduces to per-process map-order draws and GOMAXPROCS", ".txt dumps of -v are recorded, not judged"}
 	var gs []*gram.Grammar
 	for i := 0; i < nG; i++ {
-		gs = append(gs, richGrammar(c.Rng))
+		// a quarter of the grammars are shapes whose FIRST / closure fixed points need several passes in
+		// an order-sensitive way (the places where map iteration order could leak into the result)
+		fam := ""
+		switch i % 8 {
+		case 0, 4:
+			fam = "firstchain"
+		case 2:
+			fam = "nulllist"
+		}
+		gs = append(gs, richGrammarOf(c.Rng, fam))
 	}
 	type unit struct {
 		g     *gram.Grammar
